@@ -505,7 +505,6 @@ package factstore
 //@ spec func apart(x ast.Interval, y ast.Interval) bool = x.End.Timestamp < y.Start.Timestamp && x.End.Timestamp + 1 < y.Start.Timestamp
 
 //@ func coalesceIntervals(intervals)
-//@   mode bv
 //@   requires forall k int :: 0 <= k && k < len(intervals) && conc(intervals[k]) ==> intervals[k].Start.Timestamp <= intervals[k].End.Timestamp
 //@   modifies nothing
 //@   ensures len(intervals) >= 2 ==> (forall a int, b int :: 0 <= a && a < b && b < len(result) && conc(result[a]) && conc(result[b]) ==> apart(result[a], result[b]))
